@@ -81,7 +81,7 @@ PROPS = {
     },
     "C16": {
         "pkg": "handlers", "level": "exploration",
-        "quick": {"stages": [st("^TestC16", 800), st("^TestC16SQLiteHandlerReplies", 300, pkg="sqlite"), st("^TestC16SQLiteRepublishAfterStall", 24, shards=2, pkg="sqlite"), st("^TestC16SQLiteRetryAfterFault", 3, shards=3, pkg="sqlite")]},
+        "quick": {"stages": [st("^TestC16", 800), st("^TestC16SQLiteHandlerReplies", 500, shards=2, pkg="sqlite"), st("^TestC16SQLiteRepublishAfterStall", 24, shards=2, pkg="sqlite"), st("^TestC16SQLiteRetryAfterFault", 3, shards=3, pkg="sqlite")]},
         "thorough": {"stages": [st("^TestC16", 20000, shards=10, timeout=3000), st("^TestC16SQLiteHandlerReplies", 5000, shards=6, pkg="sqlite", timeout=3000), st("^TestC16SQLiteRepublishAfterStall", 400, shards=4, pkg="sqlite", timeout=3000), st("^TestC16SQLiteRetryAfterFault", 40, shards=8, pkg="sqlite", timeout=3000)]},
     },
     "C07": {
